@@ -1,6 +1,7 @@
 package props
 
 import (
+	"strings"
 	"fmt"
 	"time"
 
@@ -135,6 +136,87 @@ func runC09(c *core.Ctx) {
 			}
 		}
 	}
+	// ---- the selection written TWICE in one selection set, each occurrence with its own directive (9 x 9 states), adjacent or
+	// with another field in between: the selection appears iff at least one occurrence is included (a spread, inline
+	// fragment or field excluded at its first occurrence says nothing about the second)
+	states := []string{"none", "skip-lit-true", "skip-lit-false", "include-lit-true", "include-lit-false", "skip-var-true", "skip-var-false", "include-var-true", "include-var-false"}
+	for kind := 0; kind < 3; kind++ {
+		for a := range states {
+			for b := range states {
+				for gap := 0; gap < 2; gap++ {
+					idx++
+					if !c.OwnsIdx(idx) {
+						continue
+					}
+					c.Nontrivial()
+					var vdefs []world.VarDef
+					vars := map[string]interface{}{}
+					dirOf := func(state, vname string) []world.Dir {
+						parts := strings.SplitN(state, "-", 3)
+						if len(parts) < 3 {
+							return nil
+						}
+						val := parts[2] == "true"
+						if parts[1] == "lit" {
+							return []world.Dir{{Name: parts[0], If: val}}
+						}
+						vdefs = append(vdefs, world.VarDef{Name: vname, Type: "Boolean"})
+						vars[vname] = val
+						return []world.Dir{{Name: parts[0], If: world.VarRef(vname)}}
+					}
+					d := &world.Doc{}
+					mkSel := func(dirs []world.Dir) *world.Sel {
+						inner := world.F("mkid", world.F("id"), world.F("mi"))
+						switch kind {
+						case 0:
+							return inner.With(dirs...)
+						case 1:
+							return world.In("", inner).With(dirs...)
+						}
+						return world.Sp("FX").With(dirs...)
+					}
+					if kind == 2 {
+						d.Frags = []*world.Frag{{Name: "FX", Cond: "Query", Sels: []*world.Sel{world.F("mkid", world.F("id"), world.F("mi"))}}}
+					}
+					sels := []*world.Sel{mkSel(dirOf(states[a], "v1"))}
+					if gap == 1 {
+						sels = append(sels, world.F("i"))
+					}
+					sels = append(sels, mkSel(dirOf(states[b], "v2")), world.F("s"))
+					d.Ops = []*world.Op{{Type: "query", Name: "Q", Vars: vdefs, Sels: sels}}
+					text := d.Render(world.LOneLine)
+					for _, nc := range configsFor(s, d.Features(s), false) {
+						g := g0
+						if nc.Cfg.Strat == world.FS {
+							g = gfs
+						}
+						ex := world.RefExec(s, g, d, "Q", vars, nil, world.RefOpts{})
+						if ex.Invalid {
+							continue
+						}
+						c.Eval()
+						root, run, err := world.BuildRoot(nc.Cfg, g)
+						if err != nil {
+							panic(core.EngineError{Msg: err.Error()})
+						}
+						o := world.Observe(root, run, text, "Q", vars)
+						k, msg := compareExpect(s, g, ex, o, nc.Cfg.Strat, true)
+						if k == "" {
+							c.Outcome("twice-agree")
+							continue
+						}
+						c.Outcome("twice-" + k)
+						attrs := map[string]string{"twice": states[a] + "+" + states[b], "selection": []string{"field", "inline", "spread"}[kind]}
+						if k == "panic" {
+							attrs = map[string]string{"site": o.Panic.Site, "class": o.Panic.Class}
+						}
+						c.Violation(k, attrs, worldCase{Config: nc.Name, Query: text, Op: "Q", Vars: vars,
+							Expected: map[string]interface{}{"data": ex.Data, "calls": expectedCalls(s, g, ex, nc.Cfg.Strat)}, Observed: o, Diff: msg})
+					}
+				}
+			}
+		}
+	}
 	// ---- reuse: ONE parsed executable resolved under every assignment of the two variables in every order of two calls
 	// (the verdict of a variable condition must not stick to the parsed request)
 	for kind := 0; kind < 3; kind++ {
@@ -210,5 +292,5 @@ func runC09(c *core.Ctx) {
 			}
 		}
 	}
-	c.R.Bound = "complete table 49 x 2 x 3 x 3 x configurations; + all ordered pairs of variable assignments on one parsed executable"
+	c.R.Bound = "complete table 49 x 2 x 3 x 3 x configurations; the selection written twice (9 x 9 directive states x 3 kinds x 2 spacings); + all ordered pairs of variable assignments on one parsed executable"
 }
